@@ -11,7 +11,7 @@ TEXTCC = '<<"crlf", "lf", "trailws", "dots", "eq", "from", "bdry", "len75", "len
 BASE = dict(MAXP='2', MAXE='1', MAXA='1', ENCS='{"qp", "b64", "8bit"}', PENCS='{""}', FENCS='{""}',
             CCS=TEXTCC, PRODS='<<"string", "writer", "chunk3">>', SRCS='<<"seeker", "reader", "file", "iofs", "buffer">>',
             ROTS='{0}', BOUNDARIES='{""}', DELS='{0}', HDRS='{<<>>}', PDESCS='{""}', FDESCS='{""}', FNAMES='{""}', FCIDS='{""}', OPSEQS='{<<"WriteTo">>}', FAULTS=NOFAULT, ROUNDTRIP='{FALSE}',
-            SMIMES='{[key |-> "", inter |-> FALSE]}', MWS='{""}')
+            SMIMES='{[key |-> "", inter |-> FALSE]}', MWS='{""}', STYLES='{""}')
 
 
 def cfg(**kw):
@@ -70,7 +70,7 @@ STAGES.update({
         'quick': [
             ('histories-len2', 'MimeBuild', cfg(MAXP='2', MAXE='1', MAXA='1', ENCS='{"qp"}', FENCS='{"", "8bit"}',
                                                 CCS='<<"crlf", "utf8", "size900">>', SRCS='<<"seeker", "reader", "file", "iofs", "tpl">>',
-                                                OPSEQS='{<<a, b>> : a, b \\in {"WriteTo", "Write", "Reader", "UpdateReader", "File", "FileOver", "TempFile", "FailSinkMid"}}')),
+                                                OPSEQS='{<<a, b>> : a, b \\in {"WriteTo", "Write", "Reader", "UpdateReader", "File", "FileOver", "TempFile", "FailSinkMid", "SkipMw", "Sendmail"}}')),
             ('producer-outage', 'MimeBuild', cfg(MAXP='2', MAXE='1', MAXA='1', ENCS='{"qp"}', PRODS='<<"writer", "chunk7">>', SRCS='<<"seeker", "chunk57">>',
                                                  CCS='<<"crlf", "size900">>',
                                                  OPSEQS='{<<a, "BreakSrc", b, "FixSrc", c>> : a \\in {"WriteTo", "Reader"}, b \\in {"WriteTo", "Reader", "UpdateReader", "File"}, c \\in {"WriteTo", "UpdateReader", "Reader", "TempFile"}}')),
@@ -86,7 +86,7 @@ STAGES.update({
         'thorough': [
             ('histories-len2', 'MimeBuild', cfg(MAXP='2', MAXE='2', MAXA='2', ENCS='{"qp", "8bit"}', FENCS='{"", "8bit", "b64"}', ROTS='{0, 1, 2}',
                                                 CCS='<<"crlf", "utf8", "size900">>', SRCS='<<"seeker", "reader", "file", "iofs", "tpl", "chunk57">>',
-                                                OPSEQS='{<<a, b>> : a, b \\in {"WriteTo", "Write", "Reader", "UpdateReader", "File", "FileOver", "TempFile", "FailSink", "FailSinkMid", "FailSinkLate"}}')),
+                                                OPSEQS='{<<a, b>> : a, b \\in {"WriteTo", "Write", "Reader", "UpdateReader", "File", "FileOver", "TempFile", "FailSink", "FailSinkMid", "FailSinkLate", "SkipMw", "Sendmail"}}')),
             ('histories-len3-4', 'MimeBuild', cfg(MAXP='2', MAXE='1', MAXA='1', ENCS='{"b64"}', ROTS='{2, 3}',
                                                 CCS='<<"crlf", "utf8", "size900">>', SRCS='<<"seeker", "reader", "file", "iofs", "tpl">>',
                                                 OPSEQS='{<<a, b, c>> : a, b, c \\in {"WriteTo", "FailSinkMid", "Reader", "UpdateReader", "File"}} \\cup {<<a, b, c, d>> : a, c \\in {"WriteTo", "Reader"}, b, d \\in {"FailSinkLate", "UpdateReader", "TempFile"}}')),
@@ -152,7 +152,7 @@ STAGES.update({
 
 
 NODEV = dict(DEV_CountUnwritten='FALSE', DEV_FoldTopLeaf='FALSE', DEV_NoReset='FALSE', DEV_NoResetOnError='FALSE',
-             DEV_FreshInnerBoundary='FALSE', DEV_CountSignaturePart='FALSE')
+             DEV_FreshInnerBoundary='FALSE', DEV_CountSignaturePart='FALSE', DEV_SkipUnsigned='FALSE')
 
 
 def scfg(**kw):
@@ -185,7 +185,7 @@ STAGES['C08'] = {
         ('descriptions-names', 'Smime', scfg(MAXP='2', MAXE='1', MAXA='1', ENCS='{"qp", "b64"}', SMIMES=KEYS2,
                                               PDESCS='{"", "plain", "long", "utf8"}', FDESCS='{"", "long", "utf8"}', FNAMES='{"", "long", "utf8"}')),
         ('histories', 'Smime', scfg(MAXP='2', MAXE='1', MAXA='1', ENCS='{"qp"}', SMIMES=KEYS2B,
-                                     OPSEQS='{<<a, b, c>> : a \\in {"WriteTo", "Reader", "FailSinkLate"}, b \\in {"Write", "File", "FailSinkMid", "UpdateReader"}, c \\in {"WriteTo", "TempFile"}}')),
+                                     OPSEQS='{<<a, b, c>> : a \\in {"WriteTo", "Reader", "FailSinkLate", "SkipMw"}, b \\in {"Write", "File", "FailSinkMid", "UpdateReader", "SkipMw", "Sendmail"}, c \\in {"WriteTo", "TempFile", "SkipMw"}}')),
     ],
     'thorough': [
         ('shapes-keys-inter', 'Smime', scfg(MAXP='3', MAXE='2', MAXA='2', SMIMES=KEYS4, ROTS='{0, 1, 2, 3}', BOUNDARIES='{"", "fixed"}')),
@@ -196,12 +196,12 @@ STAGES['C08'] = {
         ('descriptions-names', 'Smime', scfg(MAXP='2', MAXE='1', MAXA='1', ENCS='{"qp", "b64", "8bit"}', SMIMES=KEYS4,
                                               PDESCS='{"", "plain", "long", "utf8", "blanks"}', FDESCS='{"", "long", "utf8", "blanks"}', FNAMES='{"", "long", "utf8", "blanks", "dotted"}')),
         ('histories', 'Smime', scfg(MAXP='2', MAXE='1', MAXA='1', ENCS='{"qp", "b64"}', SMIMES=KEYS2B,
-                                     OPSEQS='{<<a, b, c, d>> : a, c \\in {"WriteTo", "Reader", "FailSinkLate", "FailSink"}, b, d \\in {"Write", "File", "FailSinkMid", "UpdateReader", "TempFile"}}')),
+                                     OPSEQS='{<<a, b, c, d>> : a, c \\in {"WriteTo", "Reader", "FailSinkLate", "FailSink"}, b, d \\in {"Write", "File", "FailSinkMid", "UpdateReader", "TempFile", "SkipMw", "Sendmail"}}')),
     ],
 }
 SDEV = dict(MAXP='2', MAXE='1', MAXA='1', ENCS='{"qp"}', SMIMES='{[key |-> "rsa", inter |-> FALSE]}',
             HDRS=hdrsets(["genempty", "subject"], ["plain"]), PDESCS='{"", "long"}',
-            OPSEQS='{<<"WriteTo", "WriteTo">>, <<"FailSinkLate", "WriteTo">>}')
+            OPSEQS='{<<"WriteTo", "WriteTo">>, <<"FailSinkLate", "WriteTo">>, <<"SkipMw", "WriteTo">>}')
 B64 = dict(SIZES='{1, 2, 3, 4, 56, 57, 72, 75, 76, 77, 80, 152, 153, 1024}', MAXCALLS='4', DEV_OffByOne='FALSE')
 # unbounded argument (any number of Write calls of any sizes): inductive invariant of spec/B64LineInd.tla with Apalache
 EXTERNAL = {('C18', 'thorough'): [('line-breaker-inductive', 'bin/apalache-b64')]}
@@ -209,7 +209,7 @@ DESIGN_ONLY = {'C18': [('line-breaker', 'B64Line', B64, ['FullLines', 'NeverTooL
 SENSITIVITY = {'C18': [('DEV_OffByOne', 'B64Line', dict(B64, DEV_OffByOne='TRUE'), 'NeverTooLong')],
                'C08': [(d, 'Smime', scfg(**dict(SDEV, **{d: 'TRUE'})), 'CounterClean' if d in ('DEV_NoReset', 'DEV_NoResetOnError') else 'Verifies')
                        for d in ['DEV_CountUnwritten', 'DEV_FoldTopLeaf', 'DEV_NoReset', 'DEV_NoResetOnError',
-                                 'DEV_FreshInnerBoundary', 'DEV_CountSignaturePart']]}
+                                 'DEV_FreshInnerBoundary', 'DEV_CountSignaturePart', 'DEV_SkipUnsigned']]}
 
 
 ALLCALLS = '{"SetBodyP", "SetBodyH", "AddAltP", "AddAltH", "Del1", "Del2", "Embed", "Attach", "UnsetAtt", "UnsetEmb", "UnsetParts", "DropFirstAtt", "DropFirstEmb", "RevAtt", "Handover"}'
@@ -243,10 +243,10 @@ STAGES['C02']['thorough'].append(
                                                  PDESCS=DESCCLS, FDESCS=DESCCLS, FNAMES=NAMECLS, HDRS=hdrsets(["subject", "fromname"], ["utf8", "crlf", "long"]))))
 STAGES['C11']['quick'].append(
     ('signed-histories', 'MimeBuild', cfg(MAXP='2', MAXE='1', MAXA='1', ENCS='{"qp"}', SMIMES=KEYS2, CCS='<<"crlf", "utf8", "size900">>',
-                                           OPSEQS='{<<a, b, c>> : a \\in {"WriteTo", "Reader", "FailSinkLate", "FailSinkMid"}, b \\in {"Write", "File", "FailSinkLate", "UpdateReader"}, c \\in {"WriteTo", "TempFile"}}')))
+                                           OPSEQS='{<<a, b, c>> : a \\in {"WriteTo", "Reader", "FailSinkLate", "FailSinkMid", "SkipMw"}, b \\in {"Write", "File", "FailSinkLate", "UpdateReader", "SkipMw", "Sendmail"}, c \\in {"WriteTo", "TempFile", "SkipMw"}}')))
 STAGES['C11']['thorough'].append(
     ('signed-histories', 'MimeBuild', cfg(MAXP='2', MAXE='1', MAXA='2', ENCS='{"qp", "b64"}', SMIMES=KEYS2, CCS='<<"crlf", "utf8", "size900">>',
-                                           OPSEQS='{<<a, b, c, d>> : a, c \\in {"WriteTo", "Reader", "FailSinkLate", "FailSinkMid", "FailSink"}, b, d \\in {"Write", "File", "FailSinkLate", "UpdateReader", "TempFile"}}')))
+                                           OPSEQS='{<<a, b, c, d>> : a, c \\in {"WriteTo", "Reader", "FailSinkLate", "FailSinkMid", "FailSink"}, b, d \\in {"Write", "File", "FailSinkLate", "UpdateReader", "TempFile", "SkipMw", "Sendmail"}}')))
 
 
 def facts(begin):
